@@ -737,3 +737,5 @@ META = {
                     'A2: ruleset lists are sorted by non-increasing probability (well-formed ruleset)'],
     'not_decided': 'float monotonicity (A1) and sortedness of hand-made rulesets (A2) are assumed, not checked',
 }
+
+META['explanation'] += ' ' + 'Further: no comparison operand in the guesser core is rounded/formatted/offset (exact-float discipline); lambda bodies are scanned as part of the enclosing function (heap ownership).'
